@@ -350,6 +350,11 @@ def check(case, acc=None):
     try:
         w = make_world(case['cell'])
     except Exception as e:
+        if type(e).__name__ == 'InvalidName':
+            # a component name of an embedded structure that the version's tables do not define stand-alone (v2.8.2 LA2_n)
+            if acc is not None:
+                acc.excluded['element name not defined stand-alone in this version'] += 1
+            return []
         return [('C09-setup-raises:%s' % type(e).__name__, _exc(e))]
     nontrivial = False
     first = compare(w)
